@@ -204,3 +204,30 @@ def run(ctx):
                    complex_cases=sum(1 for c in cases if c["cplx"]), batched_cases=sum(1 for c in cases if c["batch"]),
                    avoided_regions=avoided, defect_free_region_cases=len(gone_region), large_oracle_only=len(big),
                    impl_exceptions=sum(1 for o in obs if not o.get("ok"))))
+
+
+def replay(ctx, payload):
+    """./check C14 --replay file : re-run one recorded witness (a defect flag's probe or a failing case)"""
+    known, _ = core.parse_known()
+    known_flags = {k["flag"] for k in known if k["property"] == "C14"}
+    if payload.get("flag"):
+        f = [x for x in findings() if x["flag"] == payload["flag"]]
+        if f and f[0]["present"]:
+            print(("KNOWN-FINDING: " if f[0]["flag"] in known_flags else "VIOLATION ") + f"property=C14 flag={f[0]['flag']} {f[0]['got']}")
+            return 0 if f[0]["flag"] in known_flags else 1
+        print(f"property=C14 flag={payload['flag']} no longer present")
+        return 0
+    cases = [payload["case"]] if "case" in payload else [c["case"] for c in payload.get("cases", []) if "case" in c]
+    present = {f["flag"] for f in findings() if f["present"]}
+    rc = 0
+    for c in cases:
+        o = L.run_impl(c)
+        bad = L.oracle(c, o, check_span=c["n"] <= 64)
+        cd = None
+        if o.get("ok") and c["n"] <= 40:
+            codes, err, _ = eval_cases("c14_replay", [L.coq_case(c, o, "lanczos_alias_identity" in present)])
+            cd = err or (codes or {}).get(0, 0)
+        print(f"replay C14: oracle failed clauses={bad} model comparison code={cd}")
+        if bad or (isinstance(cd, int) and cd >= 3) or isinstance(cd, str):
+            rc = 1
+    return rc
